@@ -72,12 +72,34 @@ def normPath (fs : Fs) (p : Str) : Str :=
       else go (c :: acc) cs
   '/' :: joinWith '/' (go [] (splitOn '/' full))
 
-def Fs.isFile (fs : Fs) (p : Str) : Bool := (alookup (normPath fs p) fs.files).isSome
+/-- what the OS resolves a path to when there are no symbolic links: as `normPath`, but a ".."
+    is only followed out of a directory that exists (`missing/../f` names nothing) -/
+def Fs.real (fs : Fs) (p : Str) : Option Str :=
+  let full := if isAbs p then p else pathPush fs.cwd p
+  let rec go (acc : List Str) : List Str → Option (List Str)
+    | [] => some acc.reverse
+    | c :: cs =>
+      if c = ['.'] ∨ c.isEmpty ∨ c = ['/'] then go acc cs
+      else if c = ['.', '.'] then
+        if acc.isEmpty ∨ fs.dirs.contains ('/' :: joinWith '/' acc.reverse) then go (acc.drop 1) cs else none
+      else go (c :: acc) cs
+  (go [] (splitOn '/' full)).map fun cs => '/' :: joinWith '/' cs
+
+def Fs.isFile (fs : Fs) (p : Str) : Bool :=
+  match fs.real p with
+  | some q => (alookup q fs.files).isSome
+  | none => false
 /-- a directory: a listed one, or the root (which always exists) -/
-def Fs.isDir (fs : Fs) (p : Str) : Bool := fs.dirs.contains (normPath fs p) || normPath fs p == ['/']
+def Fs.isDir (fs : Fs) (p : Str) : Bool :=
+  match fs.real p with
+  | some q => fs.dirs.contains q || q == ['/']
+  | none => false
 def Fs.exists (fs : Fs) (p : Str) : Bool :=
   fs.isFile p || fs.isDir p
-def Fs.read (fs : Fs) (p : Str) : Option Str := alookup (normPath fs p) fs.files
+def Fs.read (fs : Fs) (p : Str) : Option Str :=
+  match fs.real p with
+  | some q => alookup q fs.files
+  | none => none
 
 /-- order of `BTreeSet<PathBuf>`: component-wise; the root component sorts below names -/
 def compLt (a b : Str) : Bool :=
